@@ -177,6 +177,7 @@ func tartraceMain(args []string) int {
 	mimetype.SetLimit(3072)
 	var written, refused, exempt, corruptions int64
 	var blocks [][]byte
+	fmtSeen := map[string]bool{}
 	formats := map[string]int{}
 	for i, sh := range shapes {
 		raw, err := buildTar(sh, rng)
@@ -211,7 +212,9 @@ func tartraceMain(args []string) int {
 		}
 		emit(i, map[string]any{"ev": "tar", "id": i, "block": bytes2ints(blk), "accepted": acc, "result": ch[0], "rootchild": rootChild, "exempt": ex, "shape": sh, "limit": lim})
 		mimetype.SetLimit(3072)
-		if len(blocks) < *corrupt && (i%(len(shapes) / *corrupt + 1)) == 0 {
+		// headers corrupted exhaustively: spread over the enumeration, and at least one of each writer format
+		if len(blocks) < *corrupt && ((i%(len(shapes) / *corrupt + 1)) == 0 || !fmtSeen[sh.Fmt]) && acc {
+			fmtSeen[sh.Fmt] = true
 			blocks = append(blocks, append([]byte{}, raw...))
 		}
 		if written%1500 == 1 {
